@@ -119,6 +119,33 @@ fn deep_value(rng: &mut Rng) -> Scenario {
     }
 }
 
+/// Two selects in a row, each over a process that cannot finish in time and a message that is
+/// already in the mailbox; the first select's process is released right after it, so that its
+/// completion (owed to a select that is over) travels while the second select's own query is being
+/// answered "not finished yet" by the same worker. The second select has a ready source all along.
+fn sel_twice(rng: &mut Rng) -> Scenario {
+    let (a, b) = (rng.range(10, 400), rng.range(500, 900));
+    let fill = rng.usize(3);
+    let mut h = crate::rng::Fnv::default();
+    h.u64(0x5e17);
+    h.u64(fill as u64);
+    let fillers: String = (0..fill).map(|i| format!("d{i} = @#{{ 0 }}, ")).collect();
+    let src = format!("blk = #{{ !'int }}, t1 = @blk, {fillers}t2 = @blk, me = &., {a} me, {b} me, x = ! [t1, #'int], 1 t1, y = ! [t2, #'int], [x, y]");
+    Scenario {
+        family: "c04-select-after-stale-registration".into(),
+        ops: vec![ClientOp::Line { session: 0, src }],
+        modules: vec![],
+        files: Default::default(),
+        timing: false,
+        io: false,
+        fixed_faults: Default::default(),
+        expect: serde_json::json!({ "sel_twice": format!("[{a}, {b}]") }),
+        shape: h.0,
+        est_len: 120,
+        min_quantum: 0,
+    }
+}
+
 impl Property for C04 {
     fn id(&self) -> &'static str {
         "C04"
@@ -152,6 +179,9 @@ impl Property for C04 {
         }
         if rng.chance(1, 25) {
             return deep_value(rng);
+        }
+        if rng.chance(1, 20) {
+            return sel_twice(rng);
         }
         let mut defs: Vec<String> = vec![SPIN.into(), COL.into(), COLT.into(), SND.into(), FWD.into(), SND2.into(), SRV.into(), CLI.into(), COL2.into(), FA.into(), VIC.into()];
         let fspin = *rng.pick(&[3u32, 12, 30]);
@@ -413,6 +443,13 @@ impl Property for C04 {
                     v.push(Violation::new("C04", "lost-wakeup", "chain-link-not-failed", format!("process {path} ended with {res}; every link of the await chain must fail with the victim's error"), r.steps));
                     break;
                 }
+            }
+            return v;
+        }
+        if let Some(want) = scn.expect.get("sel_twice").and_then(|x| x.as_str()) {
+            match r.outs.last() {
+                Some(Out::Value(s)) if s == want => {}
+                other => v.push(Violation::new("C04", "lost-wakeup", "select-with-mail-after-stale-registration", format!("the session yielded {:?}, expected {want}: both selects had their message in the mailbox", other), r.steps)),
             }
             return v;
         }
